@@ -17,7 +17,8 @@ EXTENDS Integers, Sequences, FiniteSets, TLC
 
 CONSTANT Variant     \* "faithful", or a deliberately broken model that TLC must reject (non-vacuity):
                      \* "name-pos" (new_pointer_type advances ct_name_position by 1 instead of 2),
-                     \* "suffix-order", "no-group" (used in CDeclRead.tla)
+                     \* "name-trunc" (new_array_type writes '[N]' into a 12-byte buffer: 11 characters kept),
+                     \* "suffix-order", "no-group", "old-qual-loop" (used in CDeclRead.tla)
 
 Open == -1                       \* length of T[]
 
@@ -71,11 +72,20 @@ Complete(t) == CASE t.k = "prim" -> TRUE
                  [] t.k = "fn"   -> FALSE
                  [] OTHER        -> Aggs[t.tag].complete
 
+(* Platform limit: an object is at most 2^63 - 1 bytes (new_array_type: "array size would overflow a
+   Py_ssize_t").  TLC's integers cannot hold such sizes, so the rule is stated on decimal digits:
+   SizeDigits(t) bounds the size from above by 10^SizeDigits(t); a type with SizeDigits <= 18 certainly fits
+   and only such array types are taken as types here (the laws are silent about larger ones). *)
+RECURSIVE SizeDigits(_)
+SizeDigits(t) == CASE t.k = "arr"  -> (IF t.len = Open THEN 0 ELSE Len(ToString(t.len))) + SizeDigits(t.t)
+                   [] t.k = "prim" -> Len(ToString(PrimSize[t.n]))
+                   [] t.k \in {"struct", "union", "enum"} -> Len(ToString(Aggs[t.tag].size))
+                   [] OTHER        -> 1
 RECURSIVE Valid(_)
 Valid(t) == CASE t.k \in {"prim", "void"} -> TRUE
               [] t.k = "bad" -> FALSE                  \* what an implementation model could not build
               [] t.k = "ptr" -> Valid(t.t)
-              [] t.k = "arr" -> Valid(t.t) /\ Complete(t.t)
+              [] t.k = "arr" -> Valid(t.t) /\ Complete(t.t) /\ SizeDigits(t) <= 18
               [] t.k = "fn"  -> /\ Valid(t.res) /\ t.res.k \notin {"arr", "fn"}
                                 /\ (t.res.k \in {"struct", "union"} => Complete(t.res))
                                 /\ \A i \in 1..Len(t.args) :
@@ -89,7 +99,8 @@ IsCType(t) == Valid(t) /\ t.k # "fn"
 RECURSIVE SizeOf(_)
 SizeOf(t) == CASE t.k = "prim" -> PrimSize[t.n]
                [] t.k = "ptr"  -> 8
-               [] t.k = "arr"  -> t.len * SizeOf(t.t)
+               [] t.k = "arr"  -> LET e == SizeOf(t.t)            \* -1: does not fit TLC's 32-bit integers
+                                  IN IF e < 0 \/ (e > 0 /\ t.len > 2147483647 \div e) THEN -1 ELSE t.len * e
                [] OTHER        -> Aggs[t.tag].size
 
 (* function parameter adjustment (C11 6.7.6.3p7,8): a parameter declared with type t - also
@@ -141,7 +152,8 @@ CTm(t, inl) ==
       [] t.k = "ptr" ->                                   \* new_pointer_type
             NewOnTop(CTm(t.t, inl), IF t.t.k = "arr" THEN "(*)" ELSE " *", IF Variant = "name-pos" THEN 1 ELSE 2)
       [] t.k = "arr" ->                                   \* new_array_type
-            NewOnTop(CTm(t.t, inl), IF t.len = Open THEN "[]" ELSE "[" \o ToString(t.len) \o "]", 0)
+            LET txt == IF t.len = Open THEN "[]" ELSE "[" \o ToString(t.len) \o "]"
+            IN NewOnTop(CTm(t.t, inl), IF Variant = "name-trunc" THEN Mid(txt, 1, 11) ELSE txt, 0)
 CT(t)      == CTm(t, FALSE)
 Name(t)    == CT(t).name
 NamePos(t) == CT(t).pos
